@@ -1,6 +1,6 @@
 """C03 A hash does not depend on the history of the VM, cache or dataset objects."""
 import astq
-from rules import a64patch, aes, argon, decode, driver, dsinit, genreset, jitcross, vmcfg
+from rules import a64patch, aes, argon, decode, driver, dsinit, genreset, jitcross, vmcfg, rvvpatch
 
 LEVEL = 'other'
 TECHNIQUE = ('CFG dominance on the drivers, definite-assignment of per-program VM state, decoder def-use path enumeration, guard/capture agreement of the set_cache shortcut, sibling comparison of call sequences; vtable-resolved effect comparison of the two binding setters'
@@ -27,6 +27,9 @@ EXPLANATION += ' CTOR-INIT (x86, A64, RV64).'
 EXPLANATION += ' VM-INITORDER.'
 
 
+CLAIM += (' The generators of the RISC-V vector back-end patch words of a per-VM copy of the code template in place; every patched word that is an instruction reachable from the entry of the generated routine is written on every path through the generator, so that no program keeps a jump or an instruction an earlier program (other flags, other version) needed (RVV-PATCH-MUST).')
+EXPLANATION += ' RVV-PATCH-MUST.'
+
 def run(ctx, R):
     F = astq.Facts(ctx, 'K0')
     driver.rule_reset(ctx, R, F, 'K0')
@@ -45,6 +48,7 @@ def run(ctx, R):
         genreset.rule_gen_reset(ctx, R, arch_)
     dsinit.rule_initsel(ctx, R, F)   # the compiled SuperscalarHash / init loop is regenerated at every initCache: no code of an earlier key survives a re-key
     a64patch.rule_patchlen(ctx, R)
+    rvvpatch.rule_patch_must(ctx, R)
     genreset.rule_ctor_init(ctx, R, 'x86')
     genreset.rule_ctor_init(ctx, R, 'a64')
     genreset.rule_ctor_init(ctx, R, 'rv64')
